@@ -46,13 +46,13 @@ Definition check_C01 (buf : list N) (o : aobs) : bool :=
 
 (* ---- C03: head framing ---- *)
 (* physical lines: offsets just past each LF, together with the line's bytes (without LF) *)
-Fixpoint lines_from (off : nat) (cur : list N) (l : list N) : list (nat * nat * list N) :=
+Fixpoint lines_from (start off : nat) (cur : list N) (l : list N) : list (nat * nat * list N) :=
   (* (start offset, end offset just past LF, bytes without the LF), in order *)
   match l with
   | [] => []
   | b :: r =>
-      if is 10 b then (off - length cur, S off, rev cur) :: lines_from (S off) [] r
-      else lines_from (S off) (b :: cur) r
+      if is 10 b then (start, S off, rev' cur) :: lines_from (S off) (S off) [] r
+      else lines_from start (S off) (b :: cur) r
   end.
 Definition strictly_empty (ln : list N) : bool :=
   match ln with [] => true | [b] => is 13 b | _ => false end.
@@ -85,7 +85,7 @@ Definition start_line_end (k : kind) (buf : list N) : option (nat * list N) :=
 (* the offset the head must end at, given where the first stored header name starts
    (None: no header stored) and whether leading SP/HTAB is disregarded *)
 Definition expected_end (spb : bool) (first_name : option nat) (off : nat) (l : list N) : option nat :=
-  let ls := lines_from off [] l in
+  let ls := lines_from off off [] l in
   let before_first (s : nat) := match first_name with None => true | Some f => Nat.ltb s f end in
   let term := fun (x : nat * nat * list N) =>
     match x with (s, e, ln) =>
@@ -101,7 +101,10 @@ Definition first_name_off (ex : list slot) : option nat :=
   | _ => None
   end.
 
-Definition check_C03 (k : kind) (spb : bool) (buf : list N) (o : aobs) : bool :=
+(* `fold`: obsolete line folding is on.  On Partial a header that is still being folded is
+   not stored yet, so a whitespace-only line may be its continuation: without a stored
+   header in sight, and with folding on, only strictly empty lines are counted. *)
+Definition check_C03 (k : kind) (spb fold : bool) (buf : list N) (o : aobs) : bool :=
   match a_status o with
   | Complete n =>
       Nat.leb n (length buf) &&
@@ -117,7 +120,9 @@ Definition check_C03 (k : kind) (spb : bool) (buf : list N) (o : aobs) : bool :=
       match start_line_end k buf with
       | Some (so, l) =>
           (* no stored header is visible on Partial through `exposed`; use the array *)
-          match expected_end spb (first_name_off (a_array o)) so l with
+          let first := first_name_off (a_array o) in
+          let spb' := match first with None => spb && negb fold | Some _ => spb end in
+          match expected_end spb' first so l with
           | Some _ => false
           | None => true
           end
@@ -216,7 +221,7 @@ Fixpoint value_body_ok (fold : bool) (l : list N) : bool :=
 Definition value_ok (fold : bool) (v : list N) : bool :=
   value_body_ok fold v &&
   match v with b :: _ => negb (ws b) | [] => true end &&
-  match rev v with b :: _ => negb (ws b) | [] => true end.
+  match rev' v with b :: _ => negb (ws b) | [] => true end.
 
 (* no NUL, no CR that is not immediately followed by LF *)
 Fixpoint head_clean (l : list N) : bool :=
